@@ -113,7 +113,7 @@ Lemma recycle_outcome p :
   if reusable then srvs o = [SUpdated true] /\ next_cycle (p_lib p) = Some (p_lib p')
   else srvs o = [SClosed] /\ p_lib p' = p_lib p.
 Proof.
-  destruct p as [lib wsm sl live req cr pk tm sends writes evs tr sid]. cbn [p_ws_mode p_stream_live p_writes p_terminated p_lib].
+  destruct p as [lib wsm sl live req cr pk tm sends writes evs tr sid cl]. cbn [p_ws_mode p_stream_live p_writes p_terminated p_lib].
   intros -> -> ->. pexec. pcrunch; repeat split; try reflexivity.
   all: try (destruct (next_cycle_total lib) as [l' E]; [assumption|assumption|congruence]).
 Qed.
@@ -128,7 +128,54 @@ Lemma response_headers_sent cfg p status hs :
       (hs ++ c_server_headers cfg ++ (if (c_max_requests cfg <=? p_requests p)%Z then [(B "connection", B "close")] else []))))).
 Proof.
   intro H. apply Z.leb_le in H.
-  destruct p as [lib wsm sl live req cr pk tm sends writes evs tr sid]. destruct cfg as [ch cw mx sh].
+  destruct p as [lib wsm sl live req cr pk tm sends writes evs tr sid cl]. destruct cfg as [ch cw mx sh].
   pexec. rewrite H. pcrunch; reflexivity.
 Qed.
 
+
+(* ================================================================ a closed connection lets its reader go (finding F57)
+   When the connection is not reused, _maybe_recycle marks the protocol closed before it releases the reader; from
+   then on the loop of _handle_events is left at its first test and handle(RawData) ignores its input, whatever the
+   parser would have said (it says PAUSED for ever after a 2xx answer to CONNECT, and with a pipelined request behind
+   a response that is not followed by a new cycle). *)
+Lemma closed_after_no_reuse p :
+  p_ws_mode p = false -> p_stream_live p = false -> p_writes p = [] ->
+  negb (p_terminated p) && h1state_eqb (our_state (p_lib p)) DONE && h1state_eqb (their_state (p_lib p)) DONE = false ->
+  let p' := fst (fst (maybe_recycle p)) in
+  p_closed p' = true /\ p_can_read p' = true /\ p_parked p' = p_parked p.
+Proof.
+  destruct p as [lib wsm sl live req cr pk tm sends writes evs tr sid cl]. cbn [p_ws_mode p_stream_live p_writes p_terminated p_lib p_parked].
+  intros -> -> -> R. pexec. pcrunch; repeat split; try reflexivity.
+  all: exfalso; repeat match goal with
+         | H : ?t = false |- _ => is_var t; subst t
+         | H : h1state_eqb _ _ = true |- _ => rewrite H in R; clear H
+         end; cbn in R; discriminate.
+Qed.
+
+Section ClosedReader.
+  Variable cfg : h11cfg.
+  Variable stream_headers : list header -> list header.
+  Variable ws_token : list header -> bytes.
+  Variable ws_ext : option bytes.
+  Variable ws_sends : list (option bytes).
+
+  Lemma closed_loop_left p fuel :
+    p_closed p = true -> handle_events cfg stream_headers ws_token ws_ext ws_sends (S fuel) p = (p, [], Ok tt).
+  Proof.
+    intro C. cbn [handle_events]. unfold handle_one, bind, get. cbn beta iota. rewrite C. reflexivity.
+  Qed.
+
+  Lemma closed_reader_leaves evs p :
+    p_closed p = true -> p_parked p = true -> p_can_read p = true ->
+    let '(p', o, res) := resume_if_ready cfg stream_headers ws_token ws_ext ws_sends evs p in
+    res = Ok tt /\ p_parked p' = false /\ p_closed p' = true /\ o = [ONote "reader.resumed"].
+  Proof.
+    intros C K R. unfold resume_if_ready, bind, get. cbn beta iota. rewrite K, R. cbn [andb].
+    unfold modify, note, emit. cbn beta iota zeta.
+    rewrite closed_loop_left; [|destruct p; exact C]. cbn. repeat split. destruct p; exact C.
+  Qed.
+
+  Lemma closed_ignores_input evs p :
+    p_closed p = true -> proto_step cfg stream_headers ws_token ws_ext ws_sends (IData evs) p = (p, [], Ok tt).
+  Proof. intro C. cbn [proto_step]. unfold bind, get. cbn beta iota. rewrite C. reflexivity. Qed.
+End ClosedReader.
